@@ -2,6 +2,7 @@ package util
 
 import (
 	"context"
+	"errors"
 	"fmt"
 	"github.com/markusressel/fan2go/internal/ui"
 	"os/exec"
@@ -26,8 +27,13 @@ func SafeCmdExecution(executable string, args []string, timeout time.Duration) (
 	}
 
 	if err != nil {
-		exitError := err.(*exec.ExitError)
-		ui.Warning("Command failed to execute: %s: %s", executable, string(exitError.Stderr))
+		// not every error is an ExitError, f.ex. when the command could not be started at all
+		stderr := ""
+		var exitError *exec.ExitError
+		if errors.As(err, &exitError) {
+			stderr = string(exitError.Stderr)
+		}
+		ui.Warning("Command failed to execute: %s: %v %s", executable, err, stderr)
 		return "", err
 	}
 
